@@ -9,7 +9,7 @@ import sqlite3
 
 import extract
 
-SQL_START = re.compile(r"^\s*(SELECT|INSERT|UPDATE|DELETE|BEGIN|COMMIT|ROLLBACK|SAVEPOINT|RELEASE|PRAGMA|CREATE|WITH|ALTER|DROP)\b", re.I)
+SQL_START = re.compile(r"^\s*(SELECT|INSERT|REPLACE|UPDATE|DELETE|BEGIN|COMMIT|ROLLBACK|SAVEPOINT|RELEASE|PRAGMA|CREATE|WITH|ALTER|DROP)\b", re.I)
 
 
 class Schema:
@@ -110,6 +110,44 @@ def norm(text):
     return re.sub(r"\s+", " ", text).strip()
 
 
+KEYWORDS = ("SELECT", "FROM", "WHERE", "ORDER BY", "GROUP BY", "LIMIT", "OFFSET", "INSERT", "INTO", "VALUES", "UPDATE", "SET", "DELETE", "AND", "OR",
+            "DESC", "ASC", "AS", "ON CONFLICT", "DO UPDATE", "DO NOTHING", "REPLACE", "DISTINCT", "EXISTS", "IS NOT", "IS", "NULL", "LIKE", "ESCAPE", "IN",
+            "BEGIN", "IMMEDIATE", "COMMIT", "ROLLBACK", "SAVEPOINT", "RELEASE", "TO", "RETURNING", "NOT", "PRAGMA")
+
+
+def canon(text):
+    """spelling-insensitive form of one statement (string literals untouched): upper-case keywords, `REPLACE INTO` written as
+    `INSERT OR REPLACE INTO`, table aliases resolved (`FROM t AS m ... m.col` -> `col`), `?N` / `:name` / `@name` / `$name`
+    placeholders written `?` (the binding order is a matter of the params! list, not of the clause structure compared here)"""
+    parts = re.split(r"('(?:[^']|'')*')", text)
+    for i in range(0, len(parts), 2):
+        seg = parts[i]
+        for kw in sorted(KEYWORDS, key=len, reverse=True):
+            seg = re.sub(r"(?<![\w.])%s(?![\w.])" % kw.replace(" ", r"\s+"), kw, seg, flags=re.I)
+        parts[i] = seg
+    text = "".join(parts)
+    text = re.sub(r"^REPLACE\s+INTO\b", "INSERT OR REPLACE INTO", text)
+    quals = set()
+    kwset = set(k for kw in KEYWORDS for k in kw.split()) | {"ON", "DO", "ORDER", "GROUP", "BY", "CONFLICT", "NOTHING"}
+    for m in list(re.finditer(r"\b(?:FROM|UPDATE|INTO)\s+([A-Za-z_]\w*)((?:\s+AS)?\s+([A-Za-z_]\w*))?", strip_strings(text))):
+        if m.group(1).upper() in kwset:
+            continue
+        quals.add(m.group(1))
+        if m.group(3) and m.group(3).upper() not in kwset:
+            alias = m.group(3)
+            quals.add(alias)
+            text = re.sub(r"(\b(?:FROM|UPDATE|INTO)\s+%s)(?:\s+AS)?\s+%s\b" % (re.escape(m.group(1)), re.escape(alias)), r"\1", text, count=1)
+    parts = re.split(r"('(?:[^']|'')*')", text)
+    for i in range(0, len(parts), 2):
+        seg = parts[i]
+        for q in quals:
+            seg = re.sub(r"(?<![\w.])%s\.(?=[A-Za-z_*])" % re.escape(q), "", seg)
+        seg = re.sub(r"\?\d+", "?", seg)
+        seg = re.sub(r"(?<![\w:])[:@$][A-Za-z_]\w*", "?", seg)
+        parts[i] = seg
+    return "".join(parts)
+
+
 def split_top(s, sep=","):
     """split on sep at paren depth 0"""
     out, depth, cur = [], 0, ""
@@ -159,7 +197,7 @@ def _clause(text, start_kw, end_kws):
 class Stmt:
     def __init__(self, text):
         self.raw = text
-        self.text = norm(text)
+        self.text = canon(norm(text))
         t = strip_strings(self.text)
         up = t.upper()
         self.kind = up.split(" ", 1)[0]
